@@ -334,7 +334,7 @@ impl State {
                         the_current_infix: None,
                         infix_format: InfixFormat::Std,
                     },
-                    infix_from_timestamp(&ts, self.config.use_utc, &InfixFormat::Std),
+                    self.infix_for_direct_timestamp_file(&ts, &InfixFormat::Std),
                 )
             }
             Naming::Timestamps => (
@@ -372,7 +372,7 @@ impl State {
                 } else {
                     let fmt = InfixFormat::custom(ts_fmt);
                     let ts = latest_timestamp_file(&self.config, !self.config.append, &fmt);
-                    let infix = infix_from_timestamp(&ts, self.config.use_utc, &fmt);
+                    let infix = self.infix_for_direct_timestamp_file(&ts, &fmt);
                     (
                         NamingState::Timestamps {
                             current_timestamp: ts,
@@ -438,6 +438,19 @@ impl State {
             write,
             path,
         ))
+    }
+
+    // Without append, the file is truncated when it is opened; we thus must not take the name
+    // of an already existing file (e.g. from a previous run that was started in the same second).
+    fn infix_for_direct_timestamp_file(&self, ts: &DateTime<Local>, fmt: &InfixFormat) -> String {
+        let infix = infix_from_timestamp(ts, self.config.use_utc, fmt);
+        if self.config.append {
+            infix
+        } else {
+            self.config
+                .file_spec
+                .collision_free_infix_for_rotated_file(&infix)
+        }
     }
 
     pub fn config(&self) -> &FileLogWriterConfig {
